@@ -468,8 +468,8 @@ class LazyStackedTensorDict(TensorDictBase):
         return self._batch_size_setter(new_size)
 
     @property
-    @cache  # noqa
     def names(self):
+        # not memoised: the members' names can be assigned while the stack is locked
         names = list(self.tensordicts[0].names)
         for td in self.tensordicts[1:]:
             if names != td.names:
